@@ -209,3 +209,81 @@ def _gstate_init(h):
 
 native("C15", "c15_hbar", "native/c15_hbar.py",
        bound="5 circuits x hbar in {0.5,2,3.1} (quick) / 6 values (thorough) x 3 backends; fock cutoff 14", timeout=900)
+
+
+# ---------------------------------------------------------------------------------------------
+# A state object is closed over ITS OWN convention: the global sf.hbar (ghost symbol g) and the hbar recorded in the state
+# (symbol hs) are DIFFERENT symbols here; whatever a query computes or hands to thewalrus may depend on hs only.
+# One- and two-mode Gaussian states with symbolic data (shape-bounded).
+# ---------------------------------------------------------------------------------------------
+def _closed_state(h, n):
+    st = h.module(ST)
+    g = h.real("global_hbar")
+    hs = h.real("state_hbar")
+    h.require(And(g > 0, hs > 0))
+    h.ghost(hbar=g)
+    mu = np.array([h.real(f"mu{k}") for k in range(2 * n)], dtype=object)
+    cov = np.empty((2 * n, 2 * n), dtype=object)
+    for a_ in range(2 * n):
+        for b_ in range(2 * n):
+            cov[a_, b_] = h.real(f"V{a_}_{b_}")
+    obj = h.new(st.BaseGaussianState, _modes=n, _hbar=hs, _pure=False, _basis="gaussian", _mu=mu, _cov=cov, _data=(mu, cov),
+                _alpha=None, _mode_names=[f"q[{k}]" for k in range(n)], EQ_TOLERANCE=1e-10, _str="")
+    return st, obj, g, hs, mu, cov
+
+
+@proof(["C15", "C16"], ST + ":BaseGaussianState.fidelity_coherent", name="BaseGaussianState.fidelity_coherent/reference-state-in-the-state's-own-convention")
+def _fid_coh_closed(h):
+    n = (1, 2)[h.eng.choose(2, "modes")]
+    st, obj, g, hs, mu, cov = _closed_state(h, n)
+    from pyvc.npm import OArr
+    al = np.array([SC(z3real(h.real(f"re{k}")), z3real(h.real(f"im{k}"))) for k in range(n)], dtype=object).view(OArr)
+    seen = []
+    m = h.eng.math
+
+    def fidelity(self, other, mode, **kw):
+        seen.append((other, mode))
+        return 0.5
+    with h.stubbed(st.BaseGaussianState, "fidelity", fidelity):
+        out = h.call(obj.fidelity_coherent, al)
+    h.ensure("no-exception", out.returned, bounded_shape=True)
+    if not out.returned or len(seen) != 1:
+        h.ensure("one-overlap-with-one-reference-state", False, bounded_shape=True)
+        return
+    (rmu, rcov), modes = seen[0]
+    h.ensure("overlap-over-all-modes-in-order", list(modes) == list(range(n)), bounded_shape=True)
+    s2 = m.sqrt(2 * hs)
+    for k in range(n):
+        h.ensure(f"reference-mean-x[{k}]-is-sqrt(2 hbar_state) Re alpha", eqv(rmu[k], SV(al[k].re) * s2), bounded_shape=True)
+        h.ensure(f"reference-mean-p[{k}]-is-sqrt(2 hbar_state) Im alpha", eqv(rmu[k + n], SV(al[k].im) * s2), bounded_shape=True)
+    for a_ in range(2 * n):
+        for b_ in range(2 * n):
+            h.ensure(f"reference-covariance[{a_},{b_}]-is-the-vacuum-of-the-state's-convention", eqv(rcov[a_, b_], hs / 2 if a_ == b_ else 0), bounded_shape=True)
+
+
+@proof(["C15", "C16"], ST + ":BaseGaussianState.mean_photon", name="BaseGaussianState/queries-use-the-state's-own-hbar")
+def _queries_closed(h):
+    """mean_photon, displacement-like readouts, fidelity / number_expectation / fock_prob hand hbar = hbar_state to thewalrus"""
+    n = (1, 2)[h.eng.choose(2, "modes")]
+    st, obj, g, hs, mu, cov = _closed_state(h, n)
+    out = h.call(obj.mean_photon, 0)
+    h.ensure("mean_photon.no-exception", out.returned, bounded_shape=True)
+    if out.returned:
+        mean = out.value[0]
+        want = (cov[0, 0] + cov[n, n] + mu[0] * mu[0] + mu[n] * mu[n]) / (2 * hs) - SV(z3.RealVal("1/2"))
+        h.ensure("mean_photon.mean-in-the-state's-convention", eqv(mean, want), bounded_shape=True)
+    calls = []
+
+    class TW:
+        def __getattr__(self, name):
+            def f(*a, **kw):
+                calls.append((name, kw.get("hbar", "absent")))
+                return np.array(0.5) if name != "density_matrix" else np.zeros((2, 2))
+            return f
+    with h.stubbed(st, "twq", TW()):
+        for meth, args in (("number_expectation", ([0],)), ("fidelity", ([mu[[0, n]], cov[np.ix_([0, n], [0, n])]], 0)), ("fock_prob", ([0] * n,)), ("all_fock_probs", ())):
+            k0 = len(calls)
+            kw = {"cutoff": 3} if meth in ("fock_prob", "all_fock_probs") else {}
+            r = h.call(getattr(obj, meth), *args, **kw)
+            if r.returned and len(calls) > k0:
+                h.ensure(f"{meth}.hands-the-state's-hbar-to-thewalrus", all(hb is hs for (_, hb) in calls[k0:]), bounded_shape=True)
